@@ -43,14 +43,22 @@ def run(ctx):
     recs = []
     for i, a in enumerate(apps):
         fam = 'soap11' if i % 3 else 'soap12'
+        first_digest = None
         try:
             w, seen, classes = W.build(a, 'soap11')
             doc = W.wsdl(w)
             per, d = W.analyze(doc, a)
             z = W.zeep_call(w, seen, a, classes)
+            # the first document of a fresh application that no schema validator has prepared
+            import hashlib
+            w0, _, _ = W.build(a, 'soap11', validator=None)
+            doc0 = W.wsdl(w0)
+            _, d0 = W.analyze(doc0, a)
+            d['unresolved'] = d['unresolved'] + ['first-build: ' + x for x in d0['unresolved']]
+            first_digest = hashlib.sha256(doc0).hexdigest()
         except Exception as e:
             per, d, z = {}, {'wellformed': False, 'unresolved': ['build: %s: %s' % (type(e).__name__, e)], 'nops': 0}, {}
-        d['digests'] = [dg[2 * i] for dg in digs] + [dg[2 * i + 1] for dg in digs]
+        d['digests'] = [dg[2 * i] for dg in digs] + [dg[2 * i + 1] for dg in digs] + ([first_digest] if first_digest else [])
         recs.append({'what': 'doc', 'a': a, 'd': d})
         for s in a['services']:
             for m in s['methods']:
